@@ -251,6 +251,21 @@ pub fn deviations(g: &Grammar, base: &CDoc) -> Vec<CDoc> {
             }));
         }
     }
+    // only the /begin is missing (the /end and its tag are there), and only the /end is missing
+    if node.block && base.path.len() >= 2 {
+        let (parent, idx) = (base.path[..base.path.len() - 1].to_vec(), base.path[base.path.len() - 1]);
+        let mut d = base.doc.clone();
+        d.root.at_mut(&base.path).block = false;
+        d.root.at_mut(&parent).children.insert(idx + 1, unknown_node(false, "/end", &node.tag));
+        out.push(CDoc { label: format!("{} + begin-missing", base.label), doc: d, path: base.path.clone(), deviations: base.deviations + 1 });
+    }
+    if !node.block && base.path.len() >= 2 {
+        // a keyword element followed by a stray /end TAG
+        let (parent, idx) = (base.path[..base.path.len() - 1].to_vec(), base.path[base.path.len() - 1]);
+        let mut d = base.doc.clone();
+        d.root.at_mut(&parent).children.insert(idx + 1, unknown_node(false, "/end", &node.tag));
+        out.push(CDoc { label: format!("{} + stray-end", base.label), doc: d, path: base.path.clone(), deviations: base.deviations + 1 });
+    }
     // an extra scalar behind the fixed parameters
     out.push(mk("extra-token".into(), &|n| {
         n.params.push(Param { text: "\"extra\"".into(), kind: TKind::Str, ty: PType::Str, field: "__extra".into(), item: usize::MAX, sub: 0 });
